@@ -1,4 +1,5 @@
 import NunavutVerif.Model.Cli
+import NunavutVerif.Model.CliParse
 import NunavutVerif.Proto
 /-!
 Driver for the C08 correspondence.  One request per line, 16 space-separated fields:
@@ -6,7 +7,7 @@ Driver for the C08 correspondence.  One request per line, 16 space-separated fie
   `run <variant> <flags> <lang> <extraSer> <extraType> <pkgDir> <outdir> <gs> <omit> <gnt> <ext> <stem> <templates> <supportTemplates> <entries>`
 
 * variant `new` (model of the repaired listing) | `old` (`runBeforeFix`)
-* flags   three bits `list_outputs list_inputs dry_run`, e.g. `010` (the mode is `modeOf` of them)
+* flags   four bits `list_outputs list_inputs list_configuration dry_run`, e.g. `0100` (the mode is `modeOf` of them)
 * lang    a row name of `Gen.SupportFiles.table`
 * extraSer, extraType   lists of encoded resource names appended to the row's `serSupport` / `typeSupport` (the
           harness adds copied, non-template resources to a scratch copy of the package)
@@ -18,7 +19,13 @@ Driver for the C08 correspondence.  One request per line, 16 space-separated fie
 * entries  list of `isNs~comps~stem~src~candidates~deps`; comps/candidates/deps are `+`-lists of encoded strings
 * every list: `,`-separated (`+` inside an entry), `!` = empty list (`@` = a present but empty directory)
 
-Answer: `<ok|err:kind> ops=<list of <letter><path>> outputs=<list> inputs=<list> reads=<list>`; output paths are joined by `/`
+A second request, `parse <arg> <arg> …` (every argument string encoded; `parse` alone = empty command line), runs the
+model of the argument parser and of the runner glue (`Model/CliParse.lean`):
+  `ok ns=<dest>=<val>,… mode=<mode|!> pps=<pp,…|!> calls=<method>:<target>.<fn>(<kw>=<val>+…),…|!`   (`!` = the runner raises first)
+  `exit0:<help|version>`  |  `err:<kind>[:<encoded action name / argument>]`
+val: `N` None, `T`/`F`, `I<int>`, `S<enc>`, `L<item>+<item>…` (item `i<int>` | `s<enc>`).
+
+Answer to `run`: `<ok|err:kind> ops=<list of <letter><path>> outputs=<list> inputs=<list> reads=<list>`; output paths are joined by `/`
 (with a leading `/` when `outdir` was absolute) and encoded.
 -/
 open NunavutVerif NunavutVerif.Cli NunavutVerif.Proto NunavutVerif.Gen.SupportFiles
@@ -54,8 +61,9 @@ def parseEntry (s : String) : Option Entry :=
 
 def parseFlags (s : String) : Option Mode :=
   match s.toList with
-  | [a, b, c] => do
-    pure (modeOf (← parseBit (String.singleton a)) (← parseBit (String.singleton b)) (← parseBit (String.singleton c)))
+  | [a, b, c, d] => do
+    pure (modeOf (← parseBit (String.singleton a)) (← parseBit (String.singleton b)) (← parseBit (String.singleton c))
+      (← parseBit (String.singleton d)))
   | _ => none
 
 def errName : Err → String
@@ -67,8 +75,78 @@ def errName : Err → String
 
 def showList (xs : List String) : String := if xs.isEmpty then "!" else ",".intercalate xs
 
+/-! ### `parse`: the argument parser and the runner glue -/
+section parse
+open NunavutVerif.CliParse NunavutVerif.Gen.CliArgs
+
+def showScalar : Scalar → String
+  | .int i => "i" ++ toString i
+  | .str s => "s" ++ encS s
+
+def showVal : Val → String
+  | .none => "N"
+  | .bool true => "T"
+  | .bool false => "F"
+  | .sc (.int i) => "I" ++ toString i
+  | .sc (.str s) => "S" ++ encS s
+  | .list l => "L" ++ "+".intercalate (l.map showScalar)
+
+def showPErr : PErr → String
+  | .ambiguous a => "ambiguous:" ++ encS a
+  | .expectedOneArg n => "expected-one-argument:" ++ encS n
+  | .ignoredExplicit n => "ignored-explicit-argument:" ++ encS n
+  | .invalidChoice n => "invalid-choice:" ++ encS n
+  | .invalidValue n => "invalid-value:" ++ encS n
+  | .logic => "logic"
+  | .unrecognized xs => "unrecognized:" ++ "+".intercalate (xs.map encS)
+  | .unsupported => "unsupported"
+
+def showMode : Mode → String
+  | .listOutputs => "list-outputs"
+  | .listInputs => "list-inputs"
+  | .listConfiguration => "list-configuration"
+  | .dryRun => "dry-run"
+  | .generate => "generate"
+
+def showPP : PP → String
+  | .trim => "trim"
+  | .limitEmptyLines n => "limit:" ++ showVal n
+  | .extProgram argv => "prog:" ++ "+".intercalate (argv.map showScalar)
+  | .setFileMode m => "mode:" ++ showVal m
+
+def showCall (method : String) (c : Call) : String :=
+  method ++ ":" ++ c.target ++ "." ++ c.fn ++ "(" ++ "+".intercalate (c.kwargs.map fun (k, v) => k ++ "=" ++ showVal v) ++ ")"
+
+def parseEnv : Environ := ⟨table, "/pkg", fun _ => []⟩
+
+def answerParse (toks : List String) : String :=
+  match toks.mapM decS with
+  | none => "bad-op"
+  | some argv =>
+    match parseArgv argv with
+    | .error e => "err:" ++ showPErr e
+    | .exit0 w => "exit0:" ++ w
+    | .ok ns =>
+      let nsS := ",".intercalate (ns.map fun (k, v) => k ++ "=" ++ showVal v)
+      let modeS := match modeOfNs ns with | some m => showMode m | none => "!"
+      let ppS := match buildPPs ns ppRules with
+        | some l => showList (l.map showPP)
+        | none => "!"
+      let callS := match toArgs parseEnv ns with
+        | none => "!"
+        | some a =>
+          let all := ["_list_outputs_only", "_list_inputs_only", "_generate"].map fun m =>
+            (callsOf calls m a ns).map fun (cs : List Call) => cs.map (showCall m)
+          match all.mapM id with
+          | some ls => showList ls.flatten
+          | none => "!"
+      s!"ok ns={nsS} mode={modeS} pps={ppS} calls={callS}"
+
+end parse
+
 def answer (line : String) : String :=
   match line.splitOn " " with
+  | "parse" :: toks => answerParse (toks.filter (· ≠ ""))
   | ["run", variant, flags, lang, xser, xtype, pkgDir, outdir, gs, om, gnt, ext, stem, tpl, stpl, entries] =>
     let parsed : Option (Bool × Mode × Args × List Entry × Bool) := do
       let old ← if variant = "old" then some true else if variant = "new" then some false else none
